@@ -575,7 +575,7 @@ func (e *Env) matchEvents(kind string, ex ast.Expr) []Event {
 		if ev.Seq < e.eventFloor {
 			continue
 		}
-		if patternMatches(pat, ev.Kind, ev.Callee, sp) {
+		if patternMatches(pat, ev.Kind, ev.Callee, sp) || (ev.Alias != "" && patternMatches(pat, ev.Kind, ev.Alias, sp)) {
 			out = append(out, ev)
 		}
 	}
